@@ -8,12 +8,12 @@ open PP PP.Sexp PP.Settings
 
   cfg    ::= ((diagAll...) (diagFixed...) (diagWarn...) (compatAll...) (compatFixed...))      (strings)
   state  ::= (ws kw lit verbose packrat (cacheId cacheKind) parseSel lr (memoId memoKind)
-              ((name v)...) ((name v)...) ((ws copyDef)...) ((ws copyDef)...) gen)
+              ((name v)...) ((name v)...) ((ws copyDef fwdEmpty)...) ((ws copyDef fwdEmpty)...) gen)
   cacheKind ::= null | unbounded | (fifo n)        memoKind ::= dict | unbounded | (lru n)
   parseSel  ::= nocache | cache
   cmd    ::= enter | reenter | exit | exitcopy | restorelast | (setws s) | (setkw s) | (lit n) | (verbose b) | (packrat size force)
            | (lr cap force) | (disable) | (reset) | (diag name b) | (allwarn) | (compat name b)
-           | (compatassign name b) | (new) | (copy i) | (exprws i s b) | (wrap i)          size/cap ::= None | int
+           | (compatassign name b) | (new) | (copy i) | (exprws i s b) | (wrap i) | (newfwd) | (fwdassign i j)          size/cap ::= None | int
   err    ::= ok | RuntimeError | NotImplementedError | ValueError | AttributeError
 
   `settings-canon "<chars>"` ↦ `"<canonical set(chars)>"`
@@ -59,7 +59,7 @@ def flags? (x : Sexp) : Option Flags := do
 def exprs? (x : Sexp) : Option (List Expr) := do
   let xs ← x.list?
   xs.mapM fun
-    | .list [.str w, c] => do pure { ws := w.toList, copyDef := ← c.bool? }
+    | .list [.str w, c, f] => do pure { ws := w.toList, copyDef := ← c.bool?, fwdEmpty := ← f.bool? }
     | _ => none
 
 def state? : Sexp → Option State
@@ -93,6 +93,8 @@ def cmd? : Sexp → Option Cmd
   | .list [.atom "compatassign", .str n, b] => do pure (.op (.compatAssign n (← b.bool?)))
   | .list [.atom "new"] => some (.op .newExpr)
   | .list [.atom "copy", i] => do pure (.op (.copyExpr (← i.nat?)))
+  | .list [.atom "newfwd"] => some (.op .newFwd)
+  | .list [.atom "fwdassign", i, j] => do pure (.op (.assignFwd (← i.nat?) (← j.nat?)))
   | .list [.atom "wrap", i] => do pure (.op (.wrapExpr (← i.nat?)))
   | .list [.atom "exprws", i, .str s, b] => do pure (.op (.exprSetWs (← i.nat?) s (← b.bool?)))
   | _ => none
@@ -113,7 +115,7 @@ def ofParseSel : ParseSel → Sexp
 
 def ofFlags (fl : Flags) : Sexp := .list (fl.map fun p => .list [.str p.1, ofBool p.2])
 
-def ofExprs (es : List Expr) : Sexp := .list (es.map fun e => .list [ofChars e.ws, ofBool e.copyDef])
+def ofExprs (es : List Expr) : Sexp := .list (es.map fun e => .list [ofChars e.ws, ofBool e.copyDef, ofBool e.fwdEmpty])
 
 def ofState (s : State) : Sexp :=
   .list [.str s.defaultWs, .str s.kwChars, ofNat s.litCls, ofBool s.verbose, ofBool s.packratEnabled,
